@@ -34,6 +34,11 @@ func ParseTime(value string) (Time, error) {
 	value = strings.TrimPrefix(value, "@T")
 	for _, l := range timeLayouts {
 		if t, err = time.Parse(l, value); err == nil {
+			if l == secondLayout && t.Nanosecond() != 0 {
+				// a fraction with other than three digits (10:00:00.5): keep it
+				// visible, at the millisecond step size of the Time type.
+				return Time{t.Truncate(time.Millisecond), millisecondLayout}, nil
+			}
 			return Time{t, layout(l)}, nil
 		}
 	}
